@@ -98,6 +98,23 @@ pub fn replay(case: &Value) -> Vec<Obs> {
     if ok { obs.push(Obs::ok(owner, &f)); } else { obs.push(Obs::bad(owner, &f, detail.clone())); }
     if slice == "append" || slice == "filter" {
         let exp_out = exp_res.last().unwrap();
+        // C15: the list the built-in BUILDS (what the output variable is bound to, before any resolving) holds exactly
+        // its elements itself: no tail variable left in it to be followed, as many cells as the result has elements
+        if status == "ok" && exp_status == "ok" && agrees {
+            if let (Some(Tm::Var(id, _)), Tm::List(exp_els, None)) = (args_t.last(), exp_out) {
+                if *id >= 1 && *id <= prior_t.len() && prior_t[*id - 1] == Tm::None {
+                    let mut cur: Option<Tm> = ss.get(*id).and_then(|b| b.as_ref().map(|u| project(u)));
+                    let mut hops = 0;
+                    while let Some(Tm::Var(j, _)) = cur.clone() { hops += 1; if hops > 20 { break; } cur = ss.get(j).and_then(|b| b.as_ref().map(|u| project(u))); }
+                    if let Some(Tm::List(els, tail)) = cur {
+                        if tail.is_some() || els.len() != exp_els.len() {
+                            obs.push(Obs::bad("C15", "built-list-not-closed", format!("{} :: the list bound to the output variable is {} ({} cells{}) for the {} elements {}", what,
+                                show(&Tm::List(els.clone(), tail.clone())), els.len(), if tail.is_some() { " and a tail variable" } else { "" }, exp_els.len(), show(exp_out))));
+                        } else { obs.push(Obs::ok("C15", "built-list-closed")); }
+                    }
+                }
+            }
+        }
         if malformed { obs.push(Obs::bad("C15", "malformed-list", detail.clone())); }
         else if exp_status == "ok" && has_list_element(exp_out) {
             if agrees { obs.push(Obs::ok("C15", "list-valued-element")); }
